@@ -313,6 +313,47 @@ def sort_key(tb):
     return sort_of(tb.kty)
 
 
+# --------------------------------------------------------------------------
+# handlers: the refusals of the object layer are answered 400 / 409
+STATUS = {
+    ('POST', '/resource_providers'): {
+        exception.ObjectActionError: 400, db_exc.DBDuplicateEntry: 409},
+    ('PUT', '/resource_providers/{uuid}'): {
+        exception.ObjectActionError: 400, db_exc.DBDuplicateEntry: 409},
+    ('DELETE', '/resource_providers/{uuid}'): {
+        exception.CannotDeleteParentResourceProvider: 409,
+        exception.ResourceProviderInUse: 409},
+}
+
+
+def make_status_script(route, method, wobj):
+    from contracts import handlers as H
+    from props import common
+    op = '%s %s' % (method, route)
+    want = STATUS[(method, route)]
+
+    def script(ex):
+        I, ctx, ver, req = common.new_interp(ex, common.full_registry())
+        out = common.run(I, wobj, req)
+        last = None
+        for e in I.events:
+            if e[0] == 'contract.raised' and e[1] in (
+                    'ResourceProvider.create', 'ResourceProvider.save',
+                    'ResourceProvider.destroy'):
+                last = e
+        if last is None:
+            return
+        for k, status in want.items():
+            if issubclass(last[2], k):
+                got = H.status_of(out[1]) if out[0] == 'raise' else 'success'
+                ex.oblige('C09.T.status', got == status, 'T',
+                          {'operation': op, 'raised': last[2].__name__,
+                           'status': got,
+                           'signature': '%s answers %s to %s'
+                                        % (op, got, last[2].__name__)})
+    return script
+
+
 def replay_c09(r):
     sys.path.insert(0, os.path.join(runner.VERIF, 'replay'))
     import c09
@@ -337,6 +378,13 @@ def build(tier, seed):
                 'placement/objects/resource_provider.py:ResourceProvider._delete',
                 'placement/objects/resource_provider.py:_has_child_providers',
                 'placement/objects/resource_provider.py:_delete_rp_record'])
+    from contracts import handlers as H
+    from props import common
+    for route, method, wobj in H.routes():
+        if (method, route) in STATUS:
+            chk.script('status %s %s' % (method, route),
+                       make_status_script(route, method, wobj),
+                       common.handler_names(wobj))
     chk.canary('canary.update.rank', canary_update)
     chk.replayer('C09.', replay_c09)
     chk.fallback('B4.c09.histories', lambda: replay_c09(None),
